@@ -84,8 +84,10 @@ def one_hot_mux_semantics(ctx):
         for n in range(0, 5):
             for has_default in (False, True):
                 for priority in (False, True):
-                    for sel in range(1 << n):
-                        inputs = [[Bits(((sel >> i) & 1,)), _label(i)] for i in range(n)]
+                    # select conditions one bit wide, and two bits wide with only the upper bit set (a condition counts as
+                    # set when it is non-zero; its width must not shift the other conditions)
+                    for sel, sw in [(s, w_) for s in range(1 << n) for w_ in ((1, 2) if n else (1,))]:
+                        inputs = [[Bits(((sel >> i) & 1,)) if sw == 1 else Bits((0, (sel >> i) & 1)), _label(i)] for i in range(n)]
                         default = Bits((("dflt", k) for k in range(DW))) if has_default else None
                         kwargs = {"default": default, "priority": priority, "assert_one_hot": False}
                         if n == 0 and not has_default:
